@@ -674,6 +674,12 @@ pub fn run(part: &mut Part) {
             let descr: Vec<_> = profiles.iter().map(|p| p.describe()).collect();
             let stats = explore(&profiles, part.seed, |env, leaf| crate::damage::c08_leaf(env, leaf));
             part.stats.merge(stats);
+            // two faults in two different frames
+            let reach = if q { 3 } else { usize::MAX / 2 };
+            let pair_profiles = vec![profiles[0].clone()];
+            let stats = explore(&pair_profiles, part.seed, |env, leaf| crate::damage::c08_pairs_leaf(env, leaf, reach));
+            part.stats.merge(stats);
+            part.extra.insert("fault_pairs".into(), json!({"images": "first image profile", "menu_per_frame": "each other frame type; checksum field zeroed; first payload byte inverted; payload zeroed; length 0 / rest of block (images without a frame-shaped payload)", "pairs": if q { "every frame with each of the 3 frames written after it" } else { "every pair of frames" }}));
             part.bounds = json!({"image_profiles": descr, "faults": if TINY { "every byte of every WAL file x {8 bit flips, 00, FF, 01..04}; every zero-fill range of length 2,4,7,8,16,64,256 at every start; every frame's length field set to every value 0..=64" } else { "per frame: header bytes, first/last 8 payload bytes, every 1021st payload byte, 16 bytes after the end of the log, +-8 around block boundaries x 14 values; zero ranges 7/64/32768 at those starts; length field set to 14 boundary values" }});
             part.stats.sample(|| json!({"image":"seed cursor@block0end-0 + App(a, frame-shaped payload)","fault":{"kind":"length-field","new_len":24},"oracle":"every record returned after open was appended"}));
             part.rule = "for the WAL image left by every history of the bound: every single in-place fault of the menu is applied, the directory opened with the real code; if open succeeds every (queue, position, payload) returned must be one that was appended, positions strictly increasing. One payload of the alphabet is the byte image of a valid frame (the length field is not covered by the CRC)".into();
@@ -817,7 +823,13 @@ pub fn replay(path: &str) -> i32 {
             crash_leaf(&mut env, &leaf, &cfg);
         }
         "damage" => match property.as_str() {
-            "C08" => crate::damage::c08_leaf(&mut env, &leaf),
+            "C08" => {
+                if case["fault"]["kind"] == "fault-pair" || case["damage"]["kind"] == "fault-pair" {
+                    crate::damage::c08_pairs_leaf(&mut env, &leaf, usize::MAX / 2);
+                } else {
+                    crate::damage::c08_leaf(&mut env, &leaf);
+                }
+            }
             "C09" => crate::damage::c09_leaf(&mut env, &leaf),
             "C12" => {
                 crate::damage::c12_damage_leaf(&mut env, &leaf);
